@@ -24,6 +24,7 @@ func init() {
 		EnumRule:    "obligations per rule and construct; R1 has one evaluation per representative value",
 		Assumptions: []string{"exact decoding for all blocks, absence of reads past the block's end (needs its run-time size) and command-line splitting are not decided"},
 		Controls: []Control{
+			{Name: "region type becomes a signed integer", File: "kernel/multiboot/multiboot.go", Old: "type MemoryEntryType uint32", New: "type MemoryEntryType int32", Expect: "C10.R1 entry-type-unsigned"},
 			{Name: "empty entries are not reported", File: "kernel/multiboot/multiboot.go", Old: "\t\tif !visitor(entry) {\n\t\t\treturn\n\t\t}\n", New: "\t\tif entry.Length != 0 && !visitor(entry) {\n\t\t\treturn\n\t\t}\n", Expect: "C10.R1"},
 			{Name: "string table header read before the section loop", File: "kernel/multiboot/multiboot.go", Old: "\tfor secIndex := uint16(0); secIndex < ptrElfSections.numSections;", New: "\tif strTableSection.address == 0 {\n\t\treturn\n\t}\n\tfor secIndex := uint16(0); secIndex < ptrElfSections.numSections;", Expect: "C10.R5"},
 			{Name: "> re-introduced (F3)", File: "kernel/multiboot/multiboot.go", Old: "if entry.Type == 0 || entry.Type >= memUnknown {", New: "if entry.Type == 0 || entry.Type > memUnknown {", Expect: "C10.R1"},
